@@ -419,6 +419,19 @@ end
 	}
 }
 
+// several consumers (most of them with a context) compete for the values of a small buffered
+// channel that producers keep non-empty
+func genStress(r *lib.Rand, n int) *StressSpec {
+	nc := r.Range(4, 10)
+	st := &StressSpec{Producers: r.Range(1, 3), Consumers: nc, Cap: []int{1, 2, 2, 3, 4, 8}[r.Intn(6)], N: n,
+		Work: []int{0, 0, 3, 10, 30}[r.Intn(5)], Procs: []int{4, 8, 16, 16}[r.Intn(4)], TimeoutMs: 120000}
+	for i := 0; i < nc; i++ {
+		st.Ctx = append(st.Ctx, r.Chance(75))
+	}
+	st.N = n / st.Producers
+	return st
+}
+
 func genJobs(r *lib.Rand, tier string) []Job {
 	nm, ns, ni, states, churn := 220, 80, 50, 8, 3
 	if tier == "thorough" {
@@ -433,6 +446,13 @@ func genJobs(r *lib.Rand, tier string) []Job {
 	}
 	for i := 0; i < ni; i++ {
 		js = append(js, Job{Kind: "iso", Iso: genIso(r.Fork(), states, churn)})
+	}
+	nst, vol := 4, 120000
+	if tier == "thorough" {
+		nst, vol = 30, 400000
+	}
+	for i := 0; i < nst; i++ {
+		js = append(js, Job{Kind: "stress", Stress: genStress(r.Fork(), vol)})
 	}
 	return js
 }
